@@ -92,7 +92,11 @@ func main() {
 	reps := flag.Int("reps", 1, "repetitions of each replayed plan")
 	corpus := flag.String("corpus", "", "directory with corpus plans (*.json), run first")
 	stacks := flag.Bool("stacks", false, "include the goroutine dump in replay output")
+	focus := flag.String("focus", "", "comma-separated plan ops to prioritise (directed search)")
 	flag.Parse()
+	if *focus != "" {
+		focusOps = strings.Split(*focus, ",")
+	}
 
 	switch *mode {
 	case "f3a":
